@@ -28,12 +28,13 @@ ASSUMPTIONS = [
 
 
 def _keys(draw, n, k, values):
-    return draw(st.lists(st.tuples(*[st.sampled_from(values)] * n), min_size=1, max_size=k, unique=True))
+    lo = draw(st.sampled_from([1, 2, 3])) if len(values) ** n >= 3 else 1
+    return draw(st.lists(st.tuples(*[st.sampled_from(values)] * n), min_size=min(lo, k), max_size=k, unique=True))
 
 
 @st.composite
 def dist_spec(draw, bits_only=False, max_keys=12):
-    n = draw(st.integers(1, 4))
+    n = draw(st.sampled_from([1, 2, 2, 3, 3, 4]))
     values = [0, 1] if bits_only or draw(st.integers(0, 2)) else draw(st.sampled_from([[0, 1, 2, 3], [0, 1, 12, 7], [10, 3, 255]]))
     keys = _keys(draw, n, max_keys, values)
     w = st.one_of(st.floats(1e-9, 1, allow_nan=False), st.sampled_from([0.0, 1.0, 0.25, 1e-9]), st.floats(1e-9, 1e6, allow_nan=False), st.integers(0, 50))
